@@ -87,6 +87,18 @@ impl<M: Math> TransformedHamiltonian<M, ExternalTransformation<M>> {
     /// The call is COUNTED (also when it fails); what it does to the flow parameters is unspecified; the step
     /// size is not touched. By A-flow this is the ONLY operation that may change the flow parameters, so
     /// "updates() unchanged" is the statement "the transformation is frozen".
+    /// ghost HISTORY relation: a call of `init_transformation` took the Hamiltonian from `before` to `after` and
+    /// returned Ok.  Introduced only by the postcondition of the façade below.
+    pub uninterp spec fn init_done(before: Self, after: Self) -> bool;
+    /// façade of transformed_hamiltonian.rs:463-481 (`init_transformation`: one density evaluation at the start
+    /// point, then the user's `Math::init_transformation` callback).  ARBITRARY outcome; the step size is not
+    /// touched.  What it does to the flow parameters is unspecified.
+    #[verifier::external_body]
+    pub fn init_transformation<R: Rng + ?Sized>(&mut self, rng: &mut R, math: &mut M, position: &[F], chain: u64) -> (r: Result<(), NutsError>)
+        ensures
+            final(self).step_size == old(self).step_size,
+            r is Ok ==> Self::init_done(*old(self), *final(self)),
+    { unimplemented!() }
     #[verifier::external_body]
     pub fn update_params<R: Rng + ?Sized, I1, I2, I3>(&mut self, math: &mut M, rng: &mut R, draws: I1, grads: I2, logps: I3) -> (r: Result<(), NutsError>)
         ensures final(self).upd@ == old(self).upd@ + 1, final(self).step_size == old(self).step_size,
@@ -122,8 +134,36 @@ pub trait AdaptStrategy<M: Math>: Sized {
         requires old(self).adapt_pre(old(hamiltonian), draw)
         ensures old(self).adapt_post(final(self), old(hamiltonian), final(hamiltonian), draw, collector, r);
 
+    spec fn init_pre(&self) -> bool;
+    spec fn init_post(&self, post: &Self, h0: &Self::Hamiltonian, h1: &Self::Hamiltonian, r: Result<(), NutsError>) -> bool;
+    fn init<R: Rng + ?Sized>(&mut self, math: &mut M, options: &mut NutsOptions, hamiltonian: &mut Self::Hamiltonian, position: &[F], rng: &mut R)
+        -> (r: Result<(), NutsError>)
+        requires old(self).init_pre()
+        ensures *final(options) == *old(options), old(self).init_post(final(self), old(hamiltonian), final(hamiltonian), r);
+
     spec fn tuning_view(&self) -> bool;
     fn is_tuning(&self) -> (r: bool) ensures r == self.tuning_view();
     spec fn last_steps_view(&self) -> u64;
     fn last_num_steps(&self) -> (r: u64) ensures r == self.last_steps_view();
+}
+
+// ---- Strategy::init is proved in unit `stepsize_init` against this same contract text (see units/adapt/prelude.rs)
+impl Strategy {
+    #[verifier::external_body]
+    pub fn init<M: Math, R: Rng + ?Sized, P: Point<M>, H: Hamiltonian<M, Point = P>>(
+        &mut self,
+        math: &mut M,
+        options: &mut NutsOptions,
+        hamiltonian: &mut H,
+        position: &[F],
+        start: Option<&State<M, P>>,
+        rng: &mut R,
+    ) -> (r: Result<(), NutsError>)
+        requires
+            strat_wf(*old(self)),
+        ensures
+            final(hamiltonian).trans() == old(hamiltonian).trans(),
+            *final(options) == *old(options),
+            ss_init_post(*old(self), *final(self), old(hamiltonian).step(), final(hamiltonian).step(), r is Ok),
+    { unimplemented!() }
 }
